@@ -1,9 +1,11 @@
 /-
 C13 — Numeric literals denote the number they spell.
 Model: `Model/Lit.lean` (value functions per literal form; exact decimal→binary
-rounding), `Model/Float.lean` (integer rounding used by conversions).
+rounding), `Model/Float.lean` (integer rounding used by conversions); `Lemmas/Round.lean`
+(the rounding step of `ratToF64`).
 -/
 import MechVerif.Model.Lit
+import MechVerif.Lemmas.Round
 namespace MechVerif.Lit
 open MechVerif.FloatX MechVerif.Num
 
@@ -226,6 +228,107 @@ theorem C13_roundNat_nearest (p n : Nat) (hp : 0 < p) (h : p < bitLen n) :
     · simp only [hc, Bool.false_eq_true, if_false]
       rw [hpow]
       omega
+
+/-! ### float literals: the decimal is rounded correctly -/
+
+/-- The rounding step is exact: from the integer quotient q = N / D, one sticky bit and the low part
+    of q, `roundHalfEven` finds the integer M nearest to N / (D·K) — |N − M·K·D| ≤ K·D / 2 — and on
+    a tie the even one.  This is the whole arithmetic content of "correctly rounded, ties to
+    even"; it holds for all N, D > 0 and even K ≥ 2. -/
+theorem C13_rounding_step_nearest_even (N D K : Nat) (hD : 0 < D) (hK : 2 ≤ K) (hKe : K % 2 = 0) :
+    2 * (roundHalfEven N D K * (K * D)) ≤ 2 * N + K * D ∧ 2 * N ≤ 2 * (roundHalfEven N D K * (K * D)) + K * D ∧
+    ((2 * (roundHalfEven N D K * (K * D)) = 2 * N + K * D ∨ 2 * N = 2 * (roundHalfEven N D K * (K * D)) + K * D) →
+      roundHalfEven N D K % 2 = 0) :=
+  roundHalfEven_nearest N D K hD hK hKe
+
+/-- A positive rational num/den that is neither rounded to infinity nor below the subnormal
+    range is rounded on the right grid: with n2 / d2 = (num / den) · 2^shift exactly and
+    q = ⌊n2 / d2⌋ of lq ≥ 56 bits,
+    * e2 = lq − 1 − shift is the exponent of the leading bit of num / den (2^(lq−1) ≤ q < 2^lq),
+    * the precision is p = 53 bits for normal numbers and 53 − (−1022 − e2) below,
+    * the mantissa before rounding has exactly p bits, 2^(p−1) ≤ q / K < 2^p with K = 2^(lq − p),
+      so the grid step K · 2^(−shift) = 2^(e2 + 1 − p) is the spacing of binary64 at that magnitude,
+    * the mantissa M returned is the integer nearest to n2 / (d2 · K), ties to even, and it is
+      q / K or q / K + 1 (a carry to 2^p is the next binade's first number).
+    For every num, den > 0 — every decimal literal of any length. -/
+theorem C13_float_correctly_rounded (num den : Nat) (hn : num ≠ 0) (hd : den ≠ 0) (M : Nat) (e2 : Int) (p : Nat)
+    (h : ratRound num den = .fin M e2 p)
+    (n2 d2 lq K : Nat) (hn2 : n2 = (scaleRat num den).n2) (hd2 : d2 = (scaleRat num den).d2)
+    (hlq : lq = bitLen (n2 / d2)) (hKdef : K = 2 ^ (lq - p)) :
+    -- exact scaling
+    ((0 ≤ shiftOf num den → n2 = num * 2 ^ (shiftOf num den).toNat ∧ d2 = den) ∧
+     (shiftOf num den < 0 → n2 = num ∧ d2 = den * 2 ^ (-(shiftOf num den)).toNat)) ∧
+    -- leading bit, precision, grid
+    e2 = (lq : Int) - 1 - shiftOf num den ∧ 2 ^ (lq - 1) ≤ n2 / d2 ∧ n2 / d2 < 2 ^ lq ∧
+    (e2 ≥ -1022 → p = 53) ∧ (e2 < -1022 → (p : Int) = 53 - (-1022 - e2)) ∧ e2 ≤ 1023 ∧
+    e2 + 1 - (p : Int) = ((lq - p : Nat) : Int) - shiftOf num den ∧
+    2 ^ (p - 1) ≤ n2 / d2 / K ∧ n2 / d2 / K < 2 ^ p ∧
+    -- nearest, ties to even
+    (M = n2 / d2 / K ∨ M = n2 / d2 / K + 1) ∧
+    2 * (M * (K * d2)) ≤ 2 * n2 + K * d2 ∧ 2 * n2 ≤ 2 * (M * (K * d2)) + K * d2 ∧
+    ((2 * (M * (K * d2)) = 2 * n2 + K * d2 ∨ 2 * n2 = 2 * (M * (K * d2)) + K * d2) → M % 2 = 0) := by
+  obtain ⟨he2, hp1, hp53, hmax, hnorm, hsub, hM⟩ := ratRound_fin num den M e2 p h
+  obtain ⟨hsh, hs1, hs2⟩ := scaleRat_exact num den
+  obtain ⟨hdpos, hq55⟩ := scaled_quotient_large num den hn hd
+  rw [← hn2] at he2 hM hs1 hs2 hq55
+  rw [← hd2] at he2 hM hs1 hs2 hdpos hq55
+  rw [← hlq] at he2 hM
+  rw [← hKdef] at hM
+  obtain ⟨hl56, hm1, hm2⟩ := mantissa_normalised (n2 / d2) p hq55 hp1 hp53
+  have hq0 : n2 / d2 ≠ 0 := by
+    intro e; rw [e] at hq55; exact absurd hq55 (by decide)
+  obtain ⟨b1, b2⟩ := bitLen_bounds (n2 / d2) hq0
+  rw [← hlq] at hl56 hm1 hm2 b1 b2
+  rw [← hKdef] at hm1 hm2
+  have hK2 : 2 ≤ K := by
+    have : 2 ^ 1 ≤ 2 ^ (lq - p) := Nat.pow_le_pow_right (by decide) (by omega)
+    rw [hKdef]; simpa using this
+  have hKe : K % 2 = 0 := by
+    have : lq - p = (lq - p - 1) + 1 := by omega
+    rw [hKdef, this, Nat.pow_succ]; exact Nat.mul_mod_left _ _
+  have hnear := roundHalfEven_nearest n2 d2 K hdpos hK2 hKe
+  simp only at hnear
+  rw [hsh] at he2
+  refine ⟨⟨hs1, hs2⟩, he2, b1, b2, hnorm, hsub, hmax, ?_, hm1, hm2, ?_, ?_⟩
+  · have hple : p ≤ lq := by omega
+    rw [he2, Int.ofNat_sub hple]; omega
+  · rw [hM]; exact roundHalfEven_cases n2 d2 K
+  · rw [hM]; exact hnear
+
+/-- The bits written for a literal in the normal range denote exactly the rounded mantissa on its
+    grid: decoding `ratToF64 num den` gives M · 2^(e2 − 52) with M, e2 as characterised by
+    `C13_float_correctly_rounded` (no carry: M < 2^53). -/
+theorem C13_float_bits_denote_rounded (num den : Nat) (hn : num ≠ 0) (hd : den ≠ 0) (M : Nat) (e2 : Int)
+    (h : ratRound num den = .fin M e2 53) (hnorm : -1022 ≤ e2) (hM : M < 2 ^ 53) :
+    decode64 (ratToF64 num den) = .finite ⟨(M : Int), e2 - 52⟩ := by
+  have hz : (num == 0 || den == 0) = false := by
+    have h1 : (num == 0) = false := by simpa using hn
+    have h2 : (den == 0) = false := by simpa using hd
+    rw [h1, h2]; rfl
+  unfold ratToF64
+  rw [hz]
+  simp only [Bool.false_eq_true, if_false, h]
+  have hall := C13_float_correctly_rounded num den hn hd M e2 53 h _ _ _ _ rfl rfl rfl rfl
+  obtain ⟨_, _, _, _, _, _, hmax, _, hm1, _, hcase, _⟩ := hall
+  have hM1 : 2 ^ 52 ≤ M := by
+    rcases hcase with e | e <;> (rw [e]; simp only [Nat.add_one_sub_one] at hm1; omega)
+  exact decode_encode_normal M e2 53 hM1 hM hnorm hmax
+
+/-- When rounding carries into the next binade (M = 2^53) the bits denote 2^52 · 2^(e2 + 1 − 52),
+    the same number. -/
+theorem C13_float_bits_carry (e2 : Int) (hnorm : -1022 ≤ e2) (hmax : e2 + 1 ≤ 1023) :
+    decode64 (encodeF64 (.fin (2 ^ 53) e2 53)) = .finite ⟨((2 ^ 52 : Nat) : Int), e2 + 1 - 52⟩ := by
+  have h := decode_encode_normal (2 ^ 52) (e2 + 1) 53 (Nat.le_refl _) (by decide) (by omega) hmax
+  have e : encodeF64 (.fin (2 ^ 53) e2 53) = encodeF64 (.fin (2 ^ 52) (e2 + 1) 53) := by
+    unfold encodeF64
+    have a1 : ((2 ^ 53 : Nat) == 2 ^ 53) = true := by decide
+    have a2 : ((2 ^ 52 : Nat) == 2 ^ 53) = false := by decide
+    simp only [ge_iff_le, if_pos hnorm, a1, a2, if_true, Bool.false_eq_true, if_false]
+    rw [if_pos (by omega : -1022 ≤ e2 + 1)]
+  rw [e]; exact h
+
+/-- the premise is met: 0.1 = 1/10 is rounded to the mantissa 0x1999999999999a at exponent −4 -/
+example : ratRound 1 10 = .fin 0x1999999999999a (-4) 53 := by decide +kernel
 
 /-! ### non-vacuity and the spellings of the specification -/
 example : denote 16 [15, 15] = 255 := by decide
